@@ -21,6 +21,10 @@ expression translator.  What is regenerated from source:
   gen_chain_interval   x lower upper        np.minimum(np.maximum(x, lower), upper)
   gen_guard_interval   lower upper          lower >= upper -> ValueError   (both thresholds Python scalars)
   gen_guard_interval_arr lower upper        the comparison under `.any()` when a threshold is a DataArray
+  gen_brier_member_valid fcst               which members brier_score_for_ensemble counts in m (`fcst.notnull()`, summed over members)
+  gen_brier_score      i m binary_obs       (i / m - binary_obs) ** 2
+  gen_brier_fair_corr  i m                  i (m - i) / (m^2 (m - 1))
+  gen_brier_fair_fill  fair_corr            fair_corr.fillna(0)   (one member: no correction)
 """
 import ast
 
@@ -238,7 +242,47 @@ def chain_kernels(tree, site, T):
     return out
 
 
+def brier_kernels(tree, site, T):
+    """brier_score_for_ensemble: the i term / m term / score / fair-correction statements.  The elementwise expressions are
+    translated; the statement skeleton (which array is reduced over the member dimension, that i and the observation's event are
+    taken with the caller's operator at the thresholds, `result -= correction` under `if fair_correction`) is insisted on."""
+    U = T.Unsupported
+    fn = T.find_function(tree, "brier_score_for_ensemble")
+    body = [s for s in fn.body if not T.is_docstring(s)]
+    for s in body:
+        for nm in ("fcst", "obs"):
+            if nm in T_assigned(s):
+                raise U(f"brier_score_for_ensemble re-binds {nm}: {ast.unparse(s)[:80]}")
+
+    def one(name, where=body):
+        a = [s for s in where if isinstance(s, ast.Assign) and len(s.targets) == 1 and isinstance(s.targets[0], ast.Name) and s.targets[0].id == name]
+        if len(a) != 1:
+            raise U(f"brier_score_for_ensemble: {name} is not assigned exactly once")
+        return a[0]
+    i_st, m_st, bo_st = one("member_event_count"), one("total_member_count"), one("binary_obs")
+    if ast.unparse(i_st.value) != f"event_threshold_operator(fcst, thresholds_xr).sum(dim={ENS})":
+        raise U("i term is not event_threshold_operator(fcst, thresholds_xr).sum(dim=ensemble_member_dim): " + ast.unparse(i_st.value)[:80])
+    if ast.unparse(bo_st.value) != "binary_discretise(obs, event_thresholds, event_threshold_operator)":
+        raise U("binary_obs is not binary_discretise(obs, event_thresholds, event_threshold_operator): " + ast.unparse(bo_st.value)[:80])
+    out = "Definition gen_brier_member_valid (fcst : xv) : bool :=\n  " + T.Expr({"fcst": "num"}).boolean(_strip(m_st.value, "sum", T)) + ".\n"
+    res = [s for s in body if "result" in T_assigned(s)]
+    # result = <score>; [if fair_correction: ... result -= fair_correction]; result = apply_weights(result, ...).mean(...)  (plumbing, hand model)
+    if len(res) != 3 or not isinstance(res[0], ast.Assign) or not isinstance(res[1], ast.If) or ast.unparse(res[1].test) != "fair_correction" or res[1].orelse:
+        raise U("brier_score_for_ensemble: result / fair-correction skeleton not found")
+    out += _defn(T, "gen_brier_score", {"member_event_count": "num", "total_member_count": "num", "binary_obs": "num"}, res[0].value)
+    fb = res[1].body
+    if len(fb) != 3 or ast.unparse(fb[2]) != "result -= fair_correction":
+        raise U("fair-correction block is not `fair_corr = ...; fair_correction = ...; result -= fair_correction`")
+    out += _defn(T, "gen_brier_fair_corr", {"member_event_count": "num", "total_member_count": "num"}, one("fair_corr", fb).value)
+    out += _defn(T, "gen_brier_fair_fill", {"fair_corr": "num"}, one("fair_correction", fb).value)
+    order = [body.index(x) for x in (i_st, m_st, bo_st, res[0], res[1], res[2])]
+    if order != sorted(order):
+        raise U("brier_score_for_ensemble: statement order changed")
+    return out
+
+
 SITES = [
     dict(id="C06.crps", group="C06_crps", kind="custom", file="probability/crps_impl.py", fn=crps_kernels),
     dict(id="C06.chain", group="C06_crps", kind="custom", file="probability/crps_impl.py", fn=chain_kernels),
+    dict(id="C06.brier", group="C06_crps", kind="custom", file="probability/brier_impl.py", fn=brier_kernels),
 ]
